@@ -712,6 +712,11 @@ def prank_part(ctx):
             if not any(k in PRANK_OPS[:4] for k in names):
                 if n > 2:
                     continue
+            elif n > 2:
+                # nothing is observable when a single prank-family op is followed by no call or creation
+                first = next(i for i, k in enumerate(names) if k in PRANK_OPS[:4])
+                if sum(k in PRANK_OPS[:4] for k in names) == 1 and not any(k in ("rep", "cr", "nest", "eoa", "eoav", "pre", "cheat") for k in names[first + 1:]):
+                    continue
             cases.append(PrankCase([clone(o) for o in combo], 0, f"exh{n}"))
             n_ex += 1
     scope = (f"all histories of length <= {max_len} over the {len(ALPHABET)}-symbol alphabet {{prank, prank2, startPrank, startPrank2, "
@@ -728,7 +733,7 @@ def prank_part(ctx):
     ctx.extra["exhaustive"] = True
     ctx.extra["exhaustive_scope"] = scope
     # random deeper histories
-    for _ in range(ctx.scale(900, 6000)):
+    for _ in range(ctx.scale(600, 6000)):
         nargs = rng.choice([0, 0, 2, 3])
         n = rng.randrange(3, 8)
         cases.append(PrankCase(random_ops(rng, n, rng.randrange(0, 4), True, nargs, pool), nargs, "random"))
@@ -797,7 +802,8 @@ def later_tx_part(ctx):
         n1 = len([t for t in toks1 if t[0] == "c"])
         if impl_err != s_err:
             if impl_err != m_err:
-                raise RuntimeError(f"C14 model stale on later-tx [{h}]: error={err}")
+                STALE.append(f"C14 model stale on later-tx [{h}]: error={err}")
+                continue
             ctx.violation("later-tx:prank-survives-transaction:error-status",
                           f"[{h}] second transaction error={err}; Spec.Foundry error={s_err}", replay)
             continue
@@ -815,7 +821,7 @@ def later_tx_part(ctx):
             ctx.violation(key, f"[{h}] second transaction observes {[hex(x) for x in got]}, Spec.Foundry {[hex(x) for x in exp_s]}, "
                           f"Model.Prank {[hex(x) for x in exp_m]}", replay)
         elif got != exp_m:
-            raise RuntimeError(f"C14 model stale on later-tx [{h}]: {got} vs {exp_m}")
+            STALE.append(f"C14 model stale on later-tx [{h}]: {got} vs {exp_m}")
 
 
 # ======================================================================================================================
@@ -1002,7 +1008,7 @@ def state_part(ctx):
                 if impl_err and not model_err:
                     ctx.violation(f"state:unexpected-stuck:{type(p.error).__name__}", f"{desc}: path stuck ({p.error}) but the cheats are valid", replay)
                 else:
-                    raise RuntimeError(f"C14 model stale: Model.hevmState rejects {first_store_err} but the SEVM path is {p.kind}")
+                    STALE.append(f"C14 model stale: Model.hevmState rejects {first_store_err} but the SEVM path is {p.kind}")
                 continue
             if impl_err:
                 ctx.count("state:store-nonexistent-error")
@@ -1042,7 +1048,7 @@ def state_part(ctx):
                               f"{desc} then reads {bad_spec}: halmos {[hex(x) for x in got]} vs reference EVM on the updated world "
                               f"{[hex(x) for x in ref[:N_READS]]} / Spec.Foundry.load {[hex(l[1]) for l in loads]}", replay)
             elif bad_model:
-                raise RuntimeError(f"C14 model stale: Model.hevmState disagrees with SEVM and reference EVM on {bad_model} after {desc}")
+                STALE.append(f"C14 model stale: Model.hevmState disagrees with SEVM and reference EVM on {bad_model} after {desc}")
 
 
 # ======================================================================================================================
@@ -1165,13 +1171,13 @@ def create_part(ctx):
     rng = ctx.rng
     lits = harvest_literals()
     widths = list(range(8, 257, 8)) + [1, 2, 7, 9, 63, 65, 127, 129, 159, 161, 255] + [0, 257, 300, 1 << 20]
-    sizes = [0, 1, 31, 32, 33, 65, 1024]
+    sizes = [0, 1, 31, 32, 33, 64, 65, 1024]
     names = [b"x", b"my var", b"a  b\tc\nd", b"under_score_12", b"", b"x" * 40, b" lead", b"trail "]
     reqs = []   # (fn, name, a, b)
     for w in widths:
         reqs += [("createUint", rng.choice(names), w, None), ("createInt", rng.choice(names), w, None),
                  ("randomUintN", b"", w, None), ("randomIntN", b"", w, None)]
-    for n in sizes + [2, 64]:
+    for n in sizes + [2]:
         reqs += [("createBytes", rng.choice(names), n, None), ("createString", rng.choice(names), n, None), ("randomBytes", b"", n, None)]
     for fn in ("createUint256", "createInt256", "createBytes4", "createBytes32", "createAddress", "createBool"):
         for nm in names[:4]:
@@ -1186,6 +1192,62 @@ def create_part(ctx):
         for w in range(1, 257):
             reqs += [("createUint", b"x", w, None), ("createInt", b"x", w, None)]
 
+    create_cases(ctx, reqs, lits)
+    independence_part(ctx, asm, D)
+
+
+def spec_judge(ctx, fn, enc, lbl, bits, got, conds_ok, rp):
+    """the returned data against Spec.Foundry alone (no Model): requested width, fresh symbol iff the type has values to
+    choose from, valid encoding; for bytes/string: length word = requested size, payload of exactly that many bytes.
+    True if a violation was reported."""
+    pp = enc.split(":")
+    if pp[0] in ("uint", "int") and not 1 <= int(pp[1], 16) <= 256:
+        return False        # not a Solidity type: outside the property
+    want = _requested_bits(enc)
+    if pp[0] in ("bytes", "string"):
+        n = int(pp[1], 16)
+        lw = int.from_bytes(got[32:64], "big") if len(got) >= 64 else None
+        if len(got) < 64 or got[:32] != (32).to_bytes(32, "big") or lw != n:
+            ctx.violation(f"create:{fn}:bytes-length-word:size-{'0' if n == 0 else 'n'}",
+                          f"{fn}({n}): returned {len(got)} bytes, offset word {got[:32].hex()[-8:]}, length word {lw}; the Spec "
+                          f"(DecodesToBytes) wants offset 32, length {n} and a payload of exactly {n} bytes", rp)
+            return True
+        pay = got[64:]
+        if not (len(pay) == n or (len(pay) == (n + 31) // 32 * 32 and not any(pay[n:]))):
+            ctx.violation(f"create:{fn}:bytes-payload-size:size-{'0' if n == 0 else 'n'}",
+                          f"{fn}({n}): payload of {len(pay)} bytes for a requested size of {n}", rp)
+            return True
+    if want == 0 and lbl is not None:
+        ctx.violation(f"create:{fn}:symbol-for-empty-value", f"{fn} {enc}: an empty value mentions the symbol {lbl}", rp)
+        return True
+    if want > 0 and lbl is None:
+        ctx.violation(f"create:{fn}:not-a-fresh-symbol", f"{fn} {enc}: the result {got.hex()[:140]} mentions no fresh symbol "
+                      f"(a constant is not an arbitrary value of the type)", rp)
+        return True
+    if want > 0 and bits != want:
+        ctx.violation(f"create:{fn}:symbol-width", f"{fn} {enc}: variable {lbl} has {bits} bits, requested {want}", rp)
+        return True
+    if pp[0] == "minmax":
+        # the value set is what the path conditions admit: exactly [lo, hi]
+        w = int.from_bytes(got, "big")
+        want_ok = int(pp[1], 16) <= w <= int(pp[2], 16)
+        if len(got) != 32 or conds_ok != want_ok:
+            ctx.violation(f"create:{fn}:range-constraint", f"{fn} {enc}: value {w:#x} admitted={conds_ok} by the path conditions, "
+                          f"the range says {want_ok}", rp)
+            return True
+        return False
+    if not _in_value_set(enc, got):
+        ctx.violation(f"create:{fn}:outside-type-value-set", f"{fn} {enc}: {lbl} encodes to {got.hex()[:140]}, not a valid encoding of "
+                      f"the requested type", rp)
+        return True
+    return False
+
+
+def create_cases(ctx, reqs, lits):
+    asm, D = _imports()
+    from vlib.zeval import Evaluator
+
+    rng = ctx.rng
     tail = ["RETURNDATASIZE", 0, 0, "RETURNDATACOPY", "RETURNDATASIZE", 0, "RETURN"]
     lines, meta = [], []
     for fn, name, a, b in reqs:
@@ -1254,7 +1316,7 @@ def create_part(ctx):
                 if r == "crash" and bits0:
                     ctx.count("create:crash-bits0")
                 elif r == "crash":
-                    raise RuntimeError(f"C14 model predicts a crash for {enc} outside bits = 0")
+                    STALE.append(f"C14 model predicts a crash for {enc} outside bits = 0")
                 else:
                     ctx.violation(f"create:{fn}:exception-escapes-SEVM.run:" + sr.escaped.split(":")[0], f"{fn} {enc}: {sr.escaped[:160]}", replay)
             else:
@@ -1278,17 +1340,23 @@ def create_part(ctx):
         data_t = p.data.unwrap() if len(p.data) else b""
         for j, (v, r) in enumerate(zip(vals + [t[1] for t in targets], reps)):
             ctx.case(("create", fn, enc, replay["name"], replay["pre"], v))
+            ev = Evaluator({lbl: v} if lbl else {})
+            got = data_t if isinstance(data_t, bytes) else int(ev(data_t)).to_bytes(len(p.data), "big")
+            # 1. against the Spec alone — runs whatever the state of the Model / extractor obligations
+            conds_ok = all(bool(ev(c)) for c in p.conds if _mentions_only(c, lbl))
+            if spec_judge(ctx, fn, enc, lbl, bits, got, conds_ok, dict(replay, value=hex(v), label=lbl, observed=got.hex())):
+                break
+            # 2. against the Model
             if not r.startswith("ok "):
                 if r in ("error", "crash"):
-                    raise RuntimeError(f"C14 model stale: Model.create gives {r} for {fn} {enc} but the SEVM path succeeds")
+                    STALE.append(f"C14 model stale: Model.create gives {r} for {fn} {enc} but the SEVM path succeeds")
+                    ctx.count("create:model-stale")
+                    break
                 raise RuntimeError(f"driver: {r}")
             f = dict(x.split("=", 1) for x in r[3:].split(" "))
             m_label = bytes.fromhex(f["label"]).decode() if f["label"] != "-" else None
             m_bits = int(f["bits"], 16)
             m_data = b"" if f["data"] == "-" else bytes.fromhex(f["data"])
-            ev = Evaluator({lbl: v} if lbl else {})
-            got = data_t if isinstance(data_t, bytes) else int(ev(data_t)).to_bytes(len(p.data), "big")
-            conds_ok = all(bool(ev(c)) for c in p.conds if _mentions_only(c, lbl))
             rp = dict(replay, value=hex(v), label=lbl, observed=got.hex(), model=m_data.hex())
             if (m_label, m_bits) != (lbl, bits):
                 # label/width: Spec = requested width and a counter-based fresh name
@@ -1301,7 +1369,8 @@ def create_part(ctx):
                     ctx.violation(f"create:{fn}:label-counter", f"{fn} {enc}: label {lbl} after {replay['pre']} earlier symbols "
                                   f"(Model: {m_label})", rp)
                     break
-                raise RuntimeError(f"C14 model stale: label {lbl!r}/{bits} vs Model {m_label!r}/{m_bits}")
+                STALE.append(f"C14 model stale: {fn} {enc}: label {lbl!r}/{bits} vs Model {m_label!r}/{m_bits}")
+                break
             if f["spec"] != "1" and got == m_data:
                 ctx.violation(f"create:{fn}:outside-type-value-set", f"{fn} {enc}: value {v:#x} of {lbl} encodes to {got.hex()[:140]}, "
                               f"not a valid encoding of the requested type", rp)
@@ -1317,7 +1386,8 @@ def create_part(ctx):
                     ctx.violation(f"create:{fn}:value-unreachable", f"{fn} {enc}: target {targets[j - len(vals)][0].hex()[:140]} not produced by "
                                   f"its preimage {v:#x} (got {got.hex()[:140]})", rp)
                     break
-                raise RuntimeError(f"C14 model stale: {fn} {enc} value {v:#x}: SEVM {got.hex()[:100]} vs Model {m_data.hex()[:100]}")
+                STALE.append(f"C14 model stale: {fn} {enc} value {v:#x}: SEVM {got.hex()[:100]} vs Model {m_data.hex()[:100]}")
+                break
             if conds_ok != (f["cond"] == "1"):
                 lo_hi = enc.split(":")[1:]
                 ctx.violation(f"create:{fn}:range-constraint", f"{fn} {enc}: value {v:#x} admitted={conds_ok} by the path conditions, "
@@ -1328,7 +1398,6 @@ def create_part(ctx):
                               f"preimage {v:#x}", rp)
                 break
     assert li == len(replies)
-    independence_part(ctx, asm, D)
 
 
 def _mentions_only(c, lbl):
@@ -1349,7 +1418,9 @@ def _in_value_set(enc, data: bytes):
     k = p[0]
     if k in ("bytes", "string"):
         n = int(p[1], 16)
-        return data[:32] == (32).to_bytes(32, "big") and data[32:64] == n.to_bytes(32, "big") and len(data) >= 64 + n
+        pay = data[64:]
+        return data[:32] == (32).to_bytes(32, "big") and data[32:64] == n.to_bytes(32, "big") and \
+            (len(pay) == n or (len(pay) == (n + 31) // 32 * 32 and not any(pay[n:])))
     if len(data) != 32:
         return False
     w = int.from_bytes(data, "big")
@@ -1443,6 +1514,10 @@ def run_corpus(ctx):
         for c in data.get("prank", []):
             ctx.count("corpus")
             run_prank_cases(ctx, [PrankCase(_untuple(c["ops"]), c.get("nargs", 0), "corpus")], inputs_per_case=2)
+        creqs = [(c["fn"], c.get("name", "x").encode(), c.get("a"), c.get("b")) for c in data.get("create", [])]
+        if creqs:
+            ctx.count("corpus", len(creqs))
+            create_cases(ctx, creqs, harvest_literals())
 
 
 def _untuple(x):
